@@ -109,21 +109,19 @@ class Models(object):
         return bool(v)
 
     def make_set(self, items):
-        items = [sym.concrete(x) for x in items]
-        if any(isinstance(x, SV) for x in items):
-            ls = ListSet()
-            for x in items:
-                self.ls_add(ls, x)
-            return ls
-        out = set()
+        """every set created by the code under verification is a ListSet (it may later receive symbolic elements)"""
+        ls = ListSet()
         for x in items:
-            out.add(x)
-        return out
+            self.ls_add(ls, x)
+        return ls
 
     def ls_add(self, ls, x):
         x = sym.concrete(x)
         for e in ls.items:
-            if self.E.decide(sym.eq(x, e)):
+            if sym.liftable(x) and sym.liftable(e):
+                if self.E.decide(sym.eq(x, e)):
+                    return
+            elif x is e:
                 return
         ls.items.append(x)
 
@@ -468,6 +466,10 @@ class Models(object):
             return out
         if isinstance(op, ast.BitOr) and isinstance(l, (set, frozenset)) and isinstance(r, (set, frozenset)):
             return l | r
+        if isinstance(op, (ast.BitAnd, ast.Sub)) and (isinstance(l, ListSet) or isinstance(r, ListSet)) and \
+                isinstance(l, (set, frozenset, ListSet)) and isinstance(r, (set, frozenset, ListSet)):
+            li = l.items if isinstance(l, ListSet) else sorted(l, key=repr)
+            return ListSet([x for x in li if self.contains(r, x) == isinstance(op, ast.BitAnd)])
         if isinstance(op, ast.BitAnd) and isinstance(l, (set, frozenset)) and isinstance(r, (set, frozenset)):
             return l & r
         if isinstance(op, ast.Sub) and isinstance(l, (set, frozenset)) and isinstance(r, (set, frozenset)):
@@ -525,6 +527,9 @@ class Models(object):
         if isinstance(op, ast.NotIn):
             return not self.contains(r, l)
         # ordering
+        if isinstance(l, (set, frozenset, ListSet)) and isinstance(r, (set, frozenset, ListSet)) and isinstance(op, (ast.LtE, ast.GtE)):
+            a_, b_ = (l, r) if isinstance(op, ast.LtE) else (r, l)
+            return all(self.contains(b_, x) for x in (a_.items if isinstance(a_, ListSet) else a_))
         if isinstance(l, tuple) and isinstance(r, tuple):
             return E.decide(self.lex(op, list(l), list(r)))
         if isinstance(l, list) and isinstance(r, list):
@@ -634,7 +639,11 @@ class Models(object):
                         return False
                 return True
             raise Unsupported("equality of open symbolic dicts")
-        if isinstance(l, (set, frozenset)) and isinstance(r, (set, frozenset)):
+        if isinstance(l, (set, frozenset, ListSet)) and isinstance(r, (set, frozenset, ListSet)):
+            if isinstance(l, ListSet) or isinstance(r, ListSet):
+                li = l.items if isinstance(l, ListSet) else list(l)
+                ri = r.items if isinstance(r, ListSet) else list(r)
+                return len(li) == len(ri) and all(self.contains(r, x) for x in li)
             return l == r
         if isinstance(l, Obj) or isinstance(r, Obj):
             for o in (l, r):
@@ -1273,9 +1282,24 @@ class Models(object):
             if name in ("update", "union"):
                 tgt = recv if name == "update" else ListSet(recv.items)
                 for a_ in args:
-                    for x in E.iterate(a_):
+                    for x in (a_.items if isinstance(a_, ListSet) else E.iterate(a_)):
                         self.ls_add(tgt, x)
                 return None if name == "update" else tgt
+            if name == "issubset":
+                other = args[0]
+                return all(self.contains(other, x) for x in recv.items)
+            if name in ("intersection", "difference"):
+                other = args[0]
+                keep = [x for x in recv.items if self.contains(other, x) == (name == "intersection")]
+                return ListSet(keep)
+            if name in ("discard", "remove"):
+                for i, e in enumerate(recv.items):
+                    if (sym.liftable(e) and sym.liftable(args[0]) and E.decide(sym.eq(e, args[0]))) or e is args[0]:
+                        del recv.items[i]
+                        return None
+                if name == "remove":
+                    raise PyRaise(ExcVal(KeyError, ()))
+                return None
             raise Unsupported("set.%s with symbolic elements" % name)
         if isinstance(recv, re.Pattern):
             if name == "match":
@@ -1519,8 +1543,8 @@ class Models(object):
         t[sorted] = self.b_sorted
         t[list] = self.b_list
         t[tuple] = lambda a, k: tuple(self.E.iterate(a[0])) if a else ()
-        t[set] = lambda a, k: self.make_set(self.E.iterate(a[0])) if a else set()
-        t[frozenset] = lambda a, k: frozenset(self.make_set(self.E.iterate(a[0]))) if a else frozenset()
+        t[set] = lambda a, k: self.make_set(self.E.iterate(a[0])) if a else ListSet()
+        t[frozenset] = lambda a, k: self.make_set(self.E.iterate(a[0])) if a else ListSet()
         t[dict] = self.b_dict
         t[str] = lambda a, k: self.to_str(a[0]) if a else ""
         t[int] = self.b_int
@@ -1652,6 +1676,8 @@ class Models(object):
             raise Unsupported("isinstance(_, %s) on symbolic value" % t.__name__)
         if isinstance(v, SymDict):
             return t in (dict, object)
+        if isinstance(v, ListSet):
+            return t in (set, object)
         if isinstance(v, Obj):
             return t is object
         if isinstance(v, (FuncRef, BoundMethod, ClassRef, SplitResult, StrCount)):
@@ -1741,6 +1767,8 @@ class Models(object):
                 kk, fn = found
                 return E.call_funcref(FuncRef(kk[0], fn, owner=kk), [v], {})
             raise PyRaise(ExcVal(TypeError, ("object has no len()",)))
+        if isinstance(v, ListSet):
+            return len(v.items)
         if isinstance(v, SplitResult):
             raise Unsupported("len of split()")
         try:
